@@ -102,6 +102,7 @@ def run(tier, seed):
     importance_jobs(plan, opts, graph, seed)
     CC.execute(run, "C03", graph, plan, opts, seed, max_traces=500 if tier == "quick" else 4000)
     drivers(run, plan, opts, seed, tier)
+    CC.suite_traces(run, "C03")
     CC.binding_demo(run, graph, seed)
     run.rule = ("behaviours of AurelCache (safety layer with arbitrary eviction on a dependency-closed sub-graph; the code's policy on the graph "
                 "extracted from the working tree with clear_cache_every_nbr_calc in {1,2,3} and a memory threshold below the inputs; freeze_data "
